@@ -371,4 +371,80 @@ theorem fileDisk_cons_self (files : List (Nat × Disk)) (n : Nat) (d : Disk) :
     fileDisk ((n, d) :: files) n = d := by
   simp [fileDisk, List.lookup]
 
+/-! ### w24: the document URL (`UrlKind`) in `HarperAddToFileDict` and in a document check -/
+
+theorem loadFileDict_file (f : Fns) (disk : Disk) :
+    loadFileDict f fileUrl disk = some (loadOrEmpty f disk) := rfl
+
+theorem loadFileDict_untitled (f : Fns) (u : UrlKind) (disk : Disk) (h : u.untitled = true) :
+    loadFileDict f u disk = some [] := by simp [loadFileDict, h]
+
+theorem childrenOf_file (f : Fns) (cur : List Entry) (s : State) (n : Nat) :
+    childrenOf f cur s fileUrl n = some (children f cur s n) := rfl
+
+/-- for a `file:` URL `step` is what it was before URL kinds were modelled -/
+theorem step_addFile_file (f : Fns) (cur : List Entry) (s : State) (n : Nat) (w : Word)
+    (ord : List Word) :
+    step f cur s (.addFile fileUrl n w ord) =
+      ({ s with
+          files := (n, run (saveTrace (savedWords f (fileDisk s.files n) w ord)) (fileDisk s.files n))
+            :: s.files,
+          mem := loadOrEmpty f s.user }, []) := rfl
+
+theorem step_lint_file (f : Fns) (cur : List Entry) (s : State) (n : Nat) (qs : List Word) :
+    step f cur s (.lint fileUrl n qs) =
+      ({ s with mem := loadOrEmpty f s.user }, qs.map (acceptM f (children f cur s n))) := rfl
+
+/-- a URL without a path: `HarperAddToFileDict` changes nothing at all (whatever the scheme) -/
+theorem step_addFile_nopath (f : Fns) (cur : List Entry) (s : State) (u : UrlKind) (n : Nat)
+    (w : Word) (ord : List Word) (h : u.path = false) :
+    step f cur s (.addFile u n w ord) = (s, []) := by
+  simp only [step]
+  split
+  · rfl
+  · simp [h]
+
+/-- `untitled:/a/b.md`: the dictionary that is saved holds the new word alone -/
+theorem step_addFile_untitledPath (f : Fns) (cur : List Entry) (s : State) (n : Nat) (w : Word)
+    (ord : List Word) :
+    step f cur s (.addFile untitledPathUrl n w ord) =
+      ({ s with files := (n, .file (writeLog (orderOf ord [w])) false) :: s.files,
+                mem := loadOrEmpty f s.user }, []) := by
+  simp only [step, loadFileDict, if_true, insert, run_saveTrace]
+
+theorem step_addFile_user (f : Fns) (cur : List Entry) (s : State) (u : UrlKind) (n : Nat)
+    (w : Word) (ord : List Word) : (step f cur s (.addFile u n w ord)).1.user = s.user := by
+  simp only [step]
+  split
+  · rfl
+  · split <;> rfl
+
+theorem step_addFile_js (f : Fns) (cur : List Entry) (s : State) (u : UrlKind) (n : Nat)
+    (w : Word) (ord : List Word) : (step f cur s (.addFile u n w ord)).1.js = s.js := by
+  simp only [step]
+  split
+  · rfl
+  · split <;> rfl
+
+/-- whatever the URL kind, `HarperAddToFileDict` for the name `n` leaves every other name's file alone -/
+theorem step_addFile_fileDisk_ne (f : Fns) (cur : List Entry) (s : State) (u : UrlKind) (n m : Nat)
+    (w : Word) (ord : List Word) (h : m ≠ n) :
+    fileDisk (step f cur s (.addFile u n w ord)).1.files m = fileDisk s.files m := by
+  simp only [step]
+  split
+  · rfl
+  · split
+    · exact fileDisk_cons_ne _ _ _ _ h
+    · rfl
+
+theorem step_lint_user (f : Fns) (cur : List Entry) (s : State) (u : UrlKind) (n : Nat)
+    (qs : List Word) : (step f cur s (.lint u n qs)).1.user = s.user := by
+  simp only [step]
+  split <;> rfl
+
+theorem step_lint_files (f : Fns) (cur : List Entry) (s : State) (u : UrlKind) (n : Nat)
+    (qs : List Word) : (step f cur s (.lint u n qs)).1.files = s.files := by
+  simp only [step]
+  split <;> rfl
+
 end Harper.DictIO
